@@ -2,10 +2,13 @@ import J5V.Props.C12
 #print axioms J5V.Props.C12.C12_equiv
 #print axioms J5V.Props.C12.C12_required_equiv
 #print axioms J5V.Props.C12.C12_array_equiv
+#print axioms J5V.Props.C12.C12_map_equiv
 #print axioms J5V.Props.C12.C12_int_inclusivity
 #print axioms J5V.Props.C12.C12_int_out_of_range_rejected
 #print axioms J5V.Props.C12.C12_enum_rejected_iff_inadmissible
 #print axioms J5V.Props.C12.C12_int_reversed_counterexample
 #print axioms J5V.Props.C12.C12_unique_message_counterexample
 #print axioms J5V.Props.C12.C12_optional_presence_counterexample
+#print axioms J5V.Props.C12.C12_presence_as_declared
+#print axioms J5V.Props.C12.C12_equiv_repaired
 #print axioms J5V.Props.C12.C12_driver_matcher_ok
